@@ -310,6 +310,8 @@ def _weight_code_sum(codes: np.ndarray, weights: np.ndarray) -> int:
             return -1
         out += c * w
     # weight for the last code is always 1
+    if codes[-1] == -1:
+        return -1
     return out + codes[-1]
 
 
